@@ -114,8 +114,21 @@ def m1(ck: Check) -> None:
         prop = []
         for n in own_walk(hf.node):
             if isinstance(n, ast.For):
-                it = n.iter
-                src = it.args[0] if isinstance(it, ast.Call) and callee_name(it) in ("list", "sorted", "tuple") and it.args else it
+                src = n.iter
+                at_ = hfm.cfg.loop_header[n]
+                for _ in range(6):
+                    # copies, re-orderings and casts of the successor list, also through a local
+                    if isinstance(src, ast.Call) and callee_name(src) in ("list", "sorted", "tuple", "reversed") and src.args:
+                        src = src.args[0]
+                    elif isinstance(src, ast.Call) and callee_name(src) == "cast" and len(src.args) == 2:
+                        src = src.args[1]
+                    elif isinstance(src, ast.Name):
+                        sd__ = hfm.single_def(src.id, at_)
+                        if sd__ is None:
+                            break
+                        at_, src = sd__
+                    else:
+                        break
                 if isinstance(src, ast.Call) and callee_name(src) == "successors" and src.args \
                         and text(src.args[0]) == node_p and isinstance(n.target, ast.Name):
                     for c in ast.walk(n):
@@ -621,10 +634,14 @@ def m5(ck: Check) -> None:
         fm = prog.fm(SD_MOD, q)
         f = fm.f
         calls = [n for n in own_walk(f.node) if isinstance(n, ast.Call) and callee_name(n) == acc]
-        if not calls:
+        sites = [(fm.cfgn(c), text(c.args[0]) if c.args else "?", f.stmt_of(c)) for c in calls]
+        if not sites:
+            # the stored field read directly (what the accessor returns with compute=False; None = not computed)
+            fld = acc[len("node_"):]
+            sites = [(e.cfgn, e.nid, e.stmt) for e in fm.field_events() if e.kind == "load" and e.field == fld]
+        if not sites:
             raise AnalysisError(f"anchor vanished: {q} no longer calls {acc}")
-        for c in calls:
-            cn = fm.cfgn(c)
+        for cn, node_txt, site_stmt in sites:
             loops = [l for l in fm.cfg.enclosing_loops(cn) if isinstance(l, ast.For)]
             probs = []
             if not loops:
@@ -638,7 +655,7 @@ def m5(ck: Check) -> None:
                         it = vd[0][1]
                 src = it.args[0] if isinstance(it, ast.Call) and callee_name(it) in ("list", "sorted", "tuple") and it.args else it
                 var = text(lp.target)
-                if text(c.args[0]) != var:
+                if node_txt != var:
                     probs.append("attractor data requested for a node other than the loop's node")
                 if not (isinstance(src, ast.Call) and callee_name(src) == "expanded_ids" and text(src.func.value) == "self"):
                     pc = fm.pc(cn)
@@ -647,7 +664,7 @@ def m5(ck: Check) -> None:
                         probs.append(f"attractor data of nodes from `{text(it)}` is aggregated without knowing that the "
                                      f"node is expanded: data of unexpanded stubs is not exclusive, the same attractor is "
                                      f"counted again in the expanded node that covers it")
-            ck.ob("M5", fm, f.stmt_of(c), not probs, "; ".join(probs) if probs else
+            ck.ob("M5", fm, site_stmt, not probs, "; ".join(probs) if probs else
                   f"{q.split('.')[1]} aggregates over expanded nodes only")
     # label chosen by node_is_minimal of the same node
     fm = prog.fm(SD_MOD, "SuccessionDiagram.summary")
@@ -693,9 +710,14 @@ def m5(ck: Check) -> None:
     var = text(loop.target)
 
     def atomize(e):
-        if isinstance(e, ast.Call) and callee_name(e) == "node_is_minimal" and text(e.func.value) == "self" \
-                and e.args and text(e.args[0]) == var:
-            return logic.B("MIN")
+        if isinstance(e, ast.Call) and callee_name(e) == "node_is_minimal" and text(e.func.value) == "self" and e.args:
+            a0 = e.args[0]
+            try:
+                k0 = fm.key(a0, fm.cfgn(e))        # `node = <loop variable>` left behind by an inlined generator
+            except AnalysisError:
+                k0 = None
+            if text(e.args[0]) == var or k0 == var:
+                return logic.B("MIN")
         return None
 
     pmin = fm.pc(fm.cfgn(lab["min"]), atomize=atomize)
